@@ -255,6 +255,7 @@ class SemantivaOrchestrator(ABC):
                     enable_hash=bool(trace_opts.get("hash")),
                     enable_repr=bool(trace_opts.get("repr")),
                 )
+                pre_ctx_images = collector.freeze(pre_ctx_view)
                 hooks = SemantivaExecutor.SERHooks(
                     upstream=upstream_map.get(node_id, []),
                     trigger="dependency",
@@ -266,6 +267,7 @@ class SemantivaOrchestrator(ABC):
                         pre_ctx=pre_ctx_view,
                         post_ctx=self._context_snapshot(context),
                         required_keys=required_keys,
+                        pre_images=pre_ctx_images,
                     ),
                     pre_checks=pre_checks,
                     post_checks_provider=_const_supplier([]),
